@@ -104,7 +104,59 @@ func ruleCampaignGuard(e *Engine, r *Report, tbl *HandlerTable) {
 			for _, s := range e.CallerSites(target) {
 				n++
 				key := fname(target) + " called in " + fname(s.Parent())
-				if target == campaign && (s.Parent() == pre || preRespFns[s.Parent()]) {
+				// role closure: the site sits in preVoteCampaign / a pre-vote response
+				// cell, or in a helper called only from there, or behind a boolean
+				// parameter of a helper that is true only when called from there
+				var continuation func(f *ssa.Function, d int) bool
+				continuation = func(f *ssa.Function, d int) bool {
+					if f == pre || preRespFns[f] {
+						return true
+					}
+					if d == 0 {
+						return false
+					}
+					cs := e.CallerSites(f)
+					if len(cs) == 0 {
+						return false
+					}
+					for _, c := range cs {
+						if c.Common().StaticCallee() == nil || !continuation(c.Parent(), d-1) {
+							return false
+						}
+					}
+					return true
+				}
+				viaFlag := func() bool {
+					f := s.Parent()
+					for pi, p := range f.Params {
+						bt, ok := p.Type().Underlying().(*types.Basic)
+						if !ok || bt.Kind() != types.Bool {
+							continue
+						}
+						if g, _ := e.guardedOnAllPaths(s.(ssa.Instruction), reqBool("", func(v ssa.Value) bool { return v == ssa.Value(p) }, true)); !g {
+							continue
+						}
+						cs := e.CallerSites(f)
+						okAll := len(cs) > 0
+						for _, c := range cs {
+							args := c.Common().Args
+							if c.Common().StaticCallee() == nil || pi >= len(args) {
+								okAll = false
+								break
+							}
+							cb, isC := isConstBool(args[pi])
+							if !isC || (cb && !continuation(c.Parent(), 1)) {
+								okAll = false
+								break
+							}
+						}
+						if okAll {
+							return true
+						}
+					}
+					return false
+				}
+				if target == campaign && (continuation(s.Parent(), 2) || viaFlag()) {
 					r.ok("GD-campaign", key+" (continuation of a guarded pre-vote)", e.ipos(s), "campaign continues an election that was started under the guard")
 					continue
 				}
@@ -551,38 +603,65 @@ func ruleConfirmPrefix(e *Engine, r *Report) {
 	// queue element equals the confirmed ctx (requests queued after it
 	// have not been confirmed by any heartbeat round that started after
 	// they were received)
-	var ctxParam *ssa.Parameter
-	for _, p := range confirm.Params {
-		if nt, ok := p.Type().(*types.Named); ok && nt.Obj().Name() == "SystemCtx" {
-			ctxParam = p
+	ctxOf := func(g *ssa.Function) *ssa.Parameter {
+		for _, p := range g.Params {
+			if nt, ok := p.Type().(*types.Named); ok && nt.Obj().Name() == "SystemCtx" {
+				return p
+			}
+		}
+		return nil
+	}
+	if ctxOf(confirm) == nil {
+		r.undecided("GD-confirm-prefix", fname(confirm), "ctx parameter not found")
+		return
+	}
+	isParamOf := func(g *ssa.Function) VM {
+		ctxParam := ctxOf(g)
+		return func(v ssa.Value) bool {
+			v = stripConv(v)
+			if v == ssa.Value(ctxParam) {
+				return true
+			}
+			// a by-value struct parameter may be spilled to a local and re-loaded
+			if ld, ok := v.(*ssa.UnOp); ok {
+				if al := rootAlloc(ld.X); al != nil {
+					for _, sv := range storesInto(al) {
+						if sv == ssa.Value(ctxParam) {
+							return true
+						}
+					}
+				}
+			}
+			return false
 		}
 	}
-	if ctxParam == nil {
-		r.undecided("GD-confirm-prefix", fname(confirm), "ctx parameter not found")
-	} else {
-		forEachInstr(confirm, func(in ssa.Instruction) {
+	// the release step may live in a helper of confirm that takes the same ctx
+	region := map[*ssa.Function]bool{}
+	for _, g := range e.regionOf(confirm, 1) {
+		if ctxOf(g) != nil && g.Signature.Results().Len() == confirm.Signature.Results().Len() {
+			region[g] = true
+		}
+	}
+	region[confirm] = true
+	for g := range region {
+		g := g
+		forEachInstr(g, func(in ssa.Instruction) {
 			ret, ok := in.(*ssa.Return)
 			if !ok || isNilConst(retOperand(ret, 0)) {
 				return
 			}
-			r.guard("GD-confirm-prefix", "non-empty return of "+fname(confirm), in,
-				reqCmp("the queue element reached == the confirmed ctx", "==", anyV(), func(v ssa.Value) bool {
-					v = stripConv(v)
-					if v == ssa.Value(ctxParam) {
-						return true
-					}
-					// a by-value struct parameter may be spilled to a local and re-loaded
-					if ld, ok := v.(*ssa.UnOp); ok {
-						if al := rootAlloc(ld.X); al != nil {
-							for _, sv := range storesInto(al) {
-								if sv == ssa.Value(ctxParam) {
-									return true
-								}
-							}
+			// delegated: the result of a helper of the region called with this function's ctx
+			if c, ok := retOperand(ret, 0).(*ssa.Call); ok {
+				if h := c.Call.StaticCallee(); h != nil && region[h] && h != g {
+					for _, a := range c.Call.Args {
+						if isParamOf(g)(a) {
+							return
 						}
 					}
-					return false
-				}))
+				}
+			}
+			r.guard("GD-confirm-prefix", "non-empty return of "+fname(g), in,
+				reqCmp("the queue element reached == the confirmed ctx", "==", anyV(), isParamOf(g)))
 		})
 	}
 }
